@@ -50,7 +50,7 @@ let handle line =
            (match toy_hstep z (bytes_of_hex h) (num ml) with
             | None -> ["ERR"]
             | Some None -> ["FUEL"]
-            | Some (Some (z1, out)) -> (hex_of_bytes out ^ "/" ^ b01 (toy_havail z1) ^ b01 (toy_heof z1)) :: go z1 rest)
+            | Some (Some (z1, out)) -> (hex_of_bytes out ^ "/" ^ b01 (toy_havail z1) ^ b01 (zh_eof tm_eof z1) ^ b01 (z_mid z1) ^ b01 (toy_heof z1)) :: go z1 rest)
          | _ -> ["BADCALL"]) in
     String.concat " " (go z0 calls)
   | "RR" :: cms :: chunks ->
